@@ -1,7 +1,485 @@
-"""R-WRITE (C14) and R-USAGE (C15)."""
+"""R-WRITE (C14): write-effect confinement and ordering; R-USAGE (C15): usage errors precede writes."""
+
 from __future__ import annotations
+
+import ast
+
+from ..cfg import CFG, Node, walk_no_nested
+from ..dataflow import bind_call, fmt_origin, origins
+from ..loader import AnalysisError, FuncInfo, site_packages
 from ..report import Ctx
+from .common import all_guards, call_name, direct_guards, norm, reachable_functions, where
+
+# ---- effect table: calls that mutate the file system (frozen; one reason per family)
+FS_METHODS = {
+    # pathlib.Path / file objects
+    "write_text", "write_bytes", "touch", "unlink", "rmdir", "mkdir", "symlink_to", "hardlink_to", "link_to",
+    "chmod", "lchmod", "truncate", "writelines",
+}
+FS_METHODS_1ARG = {"rename", "replace"}  # Path.rename(target) / Path.replace(target): one argument (str.replace has two)
+FS_DOTTED_PREFIXES = ("shutil.", "tempfile.", "os.remove", "os.unlink", "os.rename", "os.replace", "os.truncate",
+                      "os.makedirs", "os.mkdir", "os.rmdir", "os.removedirs", "os.renames", "os.link", "os.symlink",
+                      "os.chmod", "os.chown", "os.utime", "os.open", "os.write", "os.ftruncate", "os.mkfifo",
+                      "strif.")
+ATOMIC_CTX = "strif.atomic_output_file"
+ATOMIC_WRAPPERS = {"strif.atomic_write_text", "strif.atomic_write_bytes"}
+STDOUT_CALLS = {"sys.stdout.write", "print", "sys.stdout.writelines", "sys.stderr.write"}
+WRITE_MODES = set("wax+")
+
+# modules outside the formatting run: `flowmark --install-skill` writes a skill file on purpose
+EXCLUDED_MODULES = {"flowmark.skill": "reached only through the --install-skill/--skill/--docs early exits of main"}
 
 
+def _open_mode(call: ast.Call, positional_index: int) -> str | None:
+    mode = None
+    if len(call.args) > positional_index:
+        mode = call.args[positional_index]
+    for kw in call.keywords:
+        if kw.arg == "mode":
+            mode = kw.value
+    if mode is None:
+        return "r"
+    if isinstance(mode, ast.Constant) and isinstance(mode.value, str):
+        return mode.value
+    return None  # unknown -> treated as writing
+
+
+def fs_effect(prog, fi: FuncInfo, call: ast.Call) -> str | None:
+    """Classify a call: 'write:<what>' | 'atomic-ctx' | 'atomic-wrapper' | 'stdout' | None."""
+    name = call_name(prog, fi, call)
+    if name in STDOUT_CALLS:
+        return "stdout"
+    if name == ATOMIC_CTX:
+        return "atomic-ctx"
+    if name in ATOMIC_WRAPPERS:
+        return "atomic-wrapper"
+    if name in ("open", "builtins.open", "io.open", "codecs.open"):
+        m = _open_mode(call, 1)
+        if m is None or set(m) & WRITE_MODES:
+            return f"write:open(mode={m!r})"
+        return None
+    if any(name == p or name.startswith(p) for p in FS_DOTTED_PREFIXES):
+        return f"write:{name}"
+    if isinstance(call.func, ast.Attribute):
+        attr = call.func.attr
+        if attr == "open":
+            m = _open_mode(call, 0)
+            if m is None or set(m) & WRITE_MODES:
+                return f"write:.open(mode={m!r})"
+            return None
+        if attr in FS_METHODS:
+            return f"write:.{attr}"
+        if attr in FS_METHODS_1ARG and len(call.args) == 1 and not call.keywords:
+            return f"write:.{attr}"
+        if attr == "write":
+            return "write:.write"
+    return None
+
+
+def run_scope(ctx: Ctx) -> dict[str, FuncInfo]:
+    repo, prog = ctx.repo, ctx.prog
+    roots = [repo.func("flowmark.reformat_api:reformat_files"), repo.func("flowmark.reformat_api:reformat_file"),
+             repo.func("flowmark.cli:main")]
+    scope = reachable_functions(prog, roots)
+    return {q: f for q, f in scope.items() if f.module.name not in EXCLUDED_MODULES}
+
+
+def _with_target_origin(o) -> bool:
+    return isinstance(o, tuple) and o[0] == "with" and o[1] == ("call", ATOMIC_CTX)
+
+
+def check_write(ctx: Ctx) -> None:
+    repo, prog = ctx.repo, ctx.prog
+    scope = run_scope(ctx)
+    ctx.note("functions_in_run_scope", len(scope))
+    rf = repo.func("flowmark.reformat_api:reformat_file")
+    sites: list[tuple[FuncInfo, Node, ast.Call, str]] = []
+    n_calls = 0
+    for fi in scope.values():
+        if isinstance(fi.node, ast.Lambda):
+            continue
+        flow = prog.flow(fi)
+        for n, c in flow.all_calls():
+            n_calls += 1
+            eff = fs_effect(prog, fi, c)
+            if eff and eff != "stdout":
+                sites.append((fi, n, c, eff))
+    ctx.note("call_sites_classified", n_calls)
+    ctx.note("fs_effect_sites", [f"{fi.qual} :: {norm(c.func)} [{eff}]" for fi, n, c, eff in sites])
+    atomic_sites = [(fi, n, c) for fi, n, c, eff in sites if eff in ("atomic-ctx", "atomic-wrapper")]
+    ctx.require("R-WRITE", "atomic write sites (with atomic_output_file)", len(atomic_sites), 2)
+
+    # W1 who-may-write: every fs-mutating call is a write through the `as` target of an enclosing atomic context
+    for fi, n, c, eff in sites:
+        key = f"{fi.qual} :: {norm(c.func)}"
+        if eff in ("atomic-ctx", "atomic-wrapper"):
+            ctx.ob("R-WRITE-W1", key, fi is rf or fi.qual == rf.qual,
+                   "the atomic output context may only be opened by reformat_file", where(fi, c))
+            continue
+        ok = False
+        detail = f"file-system mutation `{norm(c)}` [{eff}] outside the atomic-output idiom"
+        if isinstance(c.func, ast.Attribute) and c.func.attr in ("write_text", "write_bytes", "write"):
+            org = origins(prog, fi, c.func.value, n)
+            if org and all(_with_target_origin(o) for o in org):
+                # and the call sits inside that with-body
+                ok = _inside_atomic_with(prog, fi, c)
+                detail = "write through the temporary path of the enclosing atomic_output_file context"
+            else:
+                detail += "; receiver is " + ", ".join(sorted(fmt_origin(o) for o in org))
+        ctx.ob("R-WRITE-W1", key, ok, detail, where(fi, c))
+
+    # per-site rules inside reformat_file
+    flow = prog.flow(rf)
+    rt_nodes = {n for n, c in flow.all_calls() if call_name(prog, rf, c) == "flowmark.reformat_api:reformat_text"}
+    ctx.require("R-WRITE", "call to reformat_text in reformat_file", len(rt_nodes), 1)
+    read_nodes = {n for n, c in flow.all_calls() if isinstance(c.func, ast.Attribute) and c.func.attr in ("read", "read_text", "read_bytes")}
+    ctx.require("R-WRITE", "read sites in reformat_file", len(read_nodes), 2)
+    for fi, n, c in atomic_sites:
+        if fi.qual != rf.qual:
+            continue
+        dest = c.args[0] if c.args else next((k.value for k in c.keywords if k.arg == "dest_path"), None)
+        dorg = origins(prog, rf, dest, n) if dest is not None else frozenset()
+        dname = "/".join(sorted(fmt_origin(o) for o in dorg))
+        key = f"{rf.qual} :: atomic write to {dname}"
+        # W2 order: nothing is opened / created before formatting succeeded
+        p = flow.cfg.path_avoiding(flow.cfg.entry, n, rt_nodes)
+        ctx.ob("R-WRITE-W2", key, p is None,
+               "every path to the write site must pass through the call to reformat_text (format in memory first)",
+               where(rf, c), [f"{x.lineno}: {x.text()}" for x in (p or [])])
+        # W3 target: the input path is only a destination under `inplace`
+        guards = all_guards(prog, rf, n)
+        gl = []
+        for b, lab in guards:
+            if b.kind == "test":
+                gl.append((origins(prog, rf, b.ast, b), lab, b))
+        inplace_T = any(o == frozenset({("param", "inplace")}) and lab == "T" for o, lab, _ in gl)
+        inplace_F = any(o == frozenset({("param", "inplace")}) and lab == "F" for o, lab, _ in gl)
+        if dorg == frozenset({("param", "path")}):
+            ctx.ob("R-WRITE-W3", key, inplace_T and not inplace_F,
+                   "the input path may be the destination only on the branch where `inplace` is true; guards: "
+                   + "; ".join(f"{norm(b.ast)}[{lab}]" for _, lab, b in gl), where(rf, c))
+            # W4 backup: with backups on the old content goes to a non-empty suffix (.orig)
+            bs = next((k.value for k in c.keywords if k.arg == "backup_suffix"), None)
+            val_off = _eval_under(prog, rf, bs, n, {"nobackup": False}) if bs is not None else None
+            val_on = _eval_under(prog, rf, bs, n, {"nobackup": True}) if bs is not None else None
+            ctx.ob("R-WRITE-W4", key, isinstance(val_off, str) and val_off == ".orig",
+                   f"with backups on (nobackup=False) the backup suffix must be the constant '.orig'; it evaluates to {val_off!r}",
+                   where(rf, c))
+            ctx.ob("R-WRITE-W4", key + " (nobackup)", val_on in ("", None) and bs is not None,
+                   f"with nobackup=True no backup suffix may be passed; it evaluates to {val_on!r}", where(rf, c))
+        elif dorg == frozenset({("param", "output")}):
+            ctx.ob("R-WRITE-W3", key, inplace_F and not inplace_T,
+                   "the output path is the destination only when not in place; guards: "
+                   + "; ".join(f"{norm(b.ast)}[{lab}]" for _, lab, b in gl), where(rf, c))
+        else:
+            ctx.ob("R-WRITE-W3", key, False, f"destination of the atomic write must be the `path` or `output` parameter, it is {dname}",
+                   where(rf, c))
+        # make_parents passed through
+        mp = next((k.value for k in c.keywords if k.arg == "make_parents"), None)
+        morg = origins(prog, rf, mp, n) if mp is not None else frozenset()
+        ctx.ob("R-WRITE-W3", key + " (make_parents)", morg == frozenset({("param", "make_parents")}),
+               "make_parents must be threaded unchanged to the atomic writer", where(rf, c))
+        # W5 body integrity
+        w = _enclosing_with(c)
+        bad = []
+        if w is not None:
+            for st in w.body:
+                for sub in ast.walk(st):
+                    if isinstance(sub, (ast.Return, ast.Break, ast.Continue, ast.Try)) or (
+                        isinstance(sub, ast.Call) and "suppress" in ast.unparse(sub.func)
+                    ):
+                        bad.append(type(sub).__name__)
+            writes_in_body = [s for s in ast.walk(w) if isinstance(s, ast.Call) and isinstance(s.func, ast.Attribute)
+                              and s.func.attr in ("write_text", "write_bytes", "write")]
+            ctx.ob("R-WRITE-W5", key, not bad and len(writes_in_body) == 1,
+                   f"the atomic with-body must consist of the single write (no return/break/continue/try/suppress that could "
+                   f"commit a partial file); found {bad or 'ok'}, writes={len(writes_in_body)}", where(rf, w))
+    # stdout sink only when not in place
+    for n, c in flow.all_calls():
+        if fs_effect(prog, rf, c) == "stdout":
+            gl = [(origins(prog, rf, b.ast, b), lab) for b, lab in all_guards(prog, rf, n) if b.kind == "test"]
+            ok = any(o == frozenset({("param", "inplace")}) and lab == "F" for o, lab in gl)
+            ctx.ob("R-WRITE-W3", f"{rf.qual} :: {norm(c.func)}", ok, "stdout is written only on the not-in-place branch", where(rf, c))
+    # W2b: the input is read before formatting, and reading happens before any write
+    for n in read_nodes:
+        p = None
+        for fi2, n2, c2 in atomic_sites:
+            if fi2.qual == rf.qual:
+                p = p or flow.cfg.path_avoiding(n2, n, set())
+        ctx.ob("R-WRITE-W2", f"{rf.qual} :: read {norm(n.ast)[:50]}", p is None, "no read may follow a write site", where(rf, n))
+    # W7 (C14 half): raise sites of reformat_file are not reachable from a write site
+    for n in flow.cfg.nodes:
+        if n.kind == "stmt" and isinstance(n.ast, ast.Raise):
+            p = None
+            for fi2, n2, c2 in atomic_sites:
+                if fi2.qual == rf.qual:
+                    p = p or flow.cfg.path_avoiding(n2, n, set())
+            ctx.ob("R-WRITE-W7", f"{rf.qual} :: {norm(n.ast)[:60]}", p is None,
+                   "an error raised by reformat_file must precede all of its writes", where(rf, n))
+    # text mode read: no lossy decoding options
+    for n, c in flow.all_calls():
+        if isinstance(c.func, ast.Attribute) and c.func.attr == "read_text":
+            errs = next((k.value for k in c.keywords if k.arg == "errors"), None)
+            ok = errs is None or (isinstance(errs, ast.Constant) and errs.value == "strict")
+            ctx.ob("R-WRITE-W2", f"{rf.qual} :: read_text decoding", ok,
+                   "decoding errors must fail the run before anything is written (errors= must be strict)", where(rf, c))
+
+
+def _enclosing_with(node: ast.AST) -> ast.With | None:
+    from ..loader import parent
+
+    p = parent(node)
+    while p is not None:
+        if isinstance(p, ast.With):
+            return p
+        p = parent(p)
+    return None
+
+
+def _inside_atomic_with(prog, fi: FuncInfo, call: ast.Call) -> bool:
+    from ..loader import parent
+
+    p = parent(call)
+    while p is not None:
+        if isinstance(p, ast.With):
+            for item in p.items:
+                if isinstance(item.context_expr, ast.Call) and call_name(prog, fi, item.context_expr) == ATOMIC_CTX:
+                    # the call is in the body, not in the items
+                    return True
+        p = parent(p)
+    return False
+
+
+def _eval_under(prog, fi: FuncInfo, expr: ast.AST | None, node: Node, env: dict[str, bool]):
+    """Evaluate a constant / IfExp / not / parameter expression under a boolean assignment of parameters."""
+    flow = prog.flow(fi)
+
+    class Unknown(Exception):
+        pass
+
+    def ev(e: ast.AST, n: Node, depth: int = 0):
+        if depth > 10:
+            raise Unknown
+        if isinstance(e, ast.Constant):
+            return e.value
+        if isinstance(e, ast.Name):
+            defs = flow.reaching(n, e.id)
+            if len(defs) == 1 and defs[0].kind == "param" and e.id in env:
+                return env[e.id]
+            if len(defs) == 1 and defs[0].kind == "assign" and defs[0].value is not None:
+                return ev(defs[0].value, defs[0].node, depth + 1)
+            raise Unknown
+        if isinstance(e, ast.UnaryOp) and isinstance(e.op, ast.Not):
+            return not ev(e.operand, n, depth + 1)
+        if isinstance(e, ast.IfExp):
+            return ev(e.body, n, depth + 1) if ev(e.test, n, depth + 1) else ev(e.orelse, n, depth + 1)
+        if isinstance(e, ast.BoolOp):
+            vals = [ev(v, n, depth + 1) for v in e.values]
+            if isinstance(e.op, ast.And):
+                r = True
+                for v in vals:
+                    r = v
+                    if not v:
+                        break
+                return r
+            r = False
+            for v in vals:
+                r = v
+                if v:
+                    break
+            return r
+        raise Unknown
+
+    try:
+        return ev(expr, node) if expr is not None else None
+    except Unknown:
+        return "<not-constant>"
+
+
+# ----------------------------------------------------------------- W6 (thorough): dependency contract
+def check_strif_contract(ctx: Ctx) -> None:
+    sp = site_packages()
+    path = sp / "strif" / "strif.py"
+    if not path.exists():
+        cands = list((sp / "strif").glob("*.py"))
+        path = next((p for p in cands if "def atomic_output_file" in p.read_text()), path)
+    try:
+        tree = ast.parse(path.read_text())
+    except (OSError, SyntaxError) as e:
+        raise AnalysisError(f"cannot read strif source for the W6 contract: {e}") from e
+    from ..loader import set_parents
+
+    set_parents(tree)
+    fn = next((n for n in ast.walk(tree) if isinstance(n, ast.FunctionDef) and n.name == "atomic_output_file"), None)
+    if fn is None:
+        raise AnalysisError("strif.atomic_output_file not found in the installed strif")
+    cfg = CFG(fn)
+    key = "strif:atomic_output_file"
+    yields = [n for n in cfg.nodes if n.kind == "stmt" and any(isinstance(s, ast.Yield) for s in ast.walk(n.ast))]
+    tmp_yields = [n for n in yields if "tmp" in ast.unparse(n.ast)]
+    ctx.ob("R-WRITE-W6", key + " :: yields temporary path", len(tmp_yields) >= 1, "the context yields a temporary path", str(path))
+    # temp path is a sibling of the destination
+    sib = False
+    for n in ast.walk(fn):
+        if isinstance(n, ast.Assign) and isinstance(n.targets[0], ast.Name) and n.targets[0].id == "tmp_path":
+            v = n.value
+            sib = isinstance(v, ast.Call) and isinstance(v.func, ast.Attribute) and v.func.attr == "with_name" and \
+                ast.unparse(v.func.value) == "dest_path"
+    ctx.ob("R-WRITE-W6", key + " :: sibling temp file", sib, "tmp_path = dest_path.with_name(...): same directory, so replace() is a rename", str(path))
+    replaces = [n for n in cfg.nodes if n.kind == "stmt" and "tmp_path.replace(dest_path)" in ast.unparse(n.ast)]
+    ctx.ob("R-WRITE-W6", key + " :: rename onto destination", len(replaces) == 1, "exactly one tmp_path.replace(dest_path)", str(path))
+    in_finally = any(isinstance(t, ast.Try) and t.finalbody for t in ast.walk(fn))
+    ctx.ob("R-WRITE-W6", key + " :: not in finally", not in_finally,
+           "the rename must not run when the body raised (no finally block in atomic_output_file)", str(path))
+    if replaces and tmp_yields:
+        rep = replaces[0]
+        # after the yield every normal path to exit passes through the replace
+        p = cfg.path_avoiding(tmp_yields[0], cfg.exit, {rep})
+        ctx.ob("R-WRITE-W6", key + " :: rename on every normal path", p is None, "yield -> exit passes the rename (or raises)", str(path),
+               [x.text() for x in (p or [])])
+        # the replace only happens after the yield
+        p2 = cfg.path_avoiding(cfg.entry, rep, set(tmp_yields))
+        ctx.ob("R-WRITE-W6", key + " :: rename after body", p2 is None, "the rename is dominated by the yield", str(path))
+        backups = [n for n in cfg.nodes if n.kind == "stmt" and "move_to_backup(dest_path" in ast.unparse(n.ast)]
+        okb = len(backups) == 1 and cfg.path_avoiding(backups[0], rep, set()) is not None and cfg.path_avoiding(rep, backups[0], set()) is None
+        ctx.ob("R-WRITE-W6", key + " :: backup precedes rename", okb, "move_to_backup(dest_path) precedes tmp_path.replace(dest_path)", str(path))
+    ctx.assume("strif behaves as its installed source reads (W6 checks the source text of atomic_output_file)")
+
+
+# ---------------------------------------------------------------------------- R-USAGE (C15)
 def check_usage_errors(ctx: Ctx) -> None:
-    pass
+    repo, prog = ctx.repo, ctx.prog
+    main = repo.func("flowmark.cli:main")
+    mflow = prog.flow(main)
+    rfs = repo.func("flowmark.reformat_api:reformat_files")
+    rf = repo.func("flowmark.reformat_api:reformat_file")
+    # (a) main: handlers and the no-input branch return non-zero constants
+    call_nodes = [n for n, c in mflow.all_calls() if prog.resolve_call(main, c) == [rfs]]
+    ctx.require("R-USAGE", "call to reformat_files in main", len(call_nodes), 1)
+    n_ret = 0
+    for r in mflow.cfg.returns():
+        val = r.ast.value
+        in_handler = _in_except(r.ast)
+        guards = [(b, lab) for b, lab in all_guards(prog, main, r) if b.kind == "test"]
+        no_input = any(lab == "T" and _is_not_files(prog, main, b) for b, lab in guards)
+        if in_handler is not None:
+            n_ret += 1
+            ok = isinstance(val, ast.Constant) and isinstance(val.value, int) and val.value != 0
+            ctx.ob("R-USAGE", f"{main.qual} :: except {in_handler} -> return", ok,
+                   f"an error from the run must give a non-zero exit status, returns {norm(val) if val else None}", where(main, r))
+        elif no_input:
+            n_ret += 1
+            ok = isinstance(val, ast.Constant) and isinstance(val.value, int) and val.value != 0
+            ctx.ob("R-USAGE", f"{main.qual} :: no-input branch -> return", ok,
+                   f"missing input must give a non-zero exit status, returns {norm(val) if val else None}", where(main, r))
+            p = None
+            for cn in call_nodes:
+                p = p or mflow.cfg.path_avoiding(cn, r, set())
+            ctx.ob("R-USAGE", f"{main.qual} :: no-input return precedes the run", p is None,
+                   "the no-input error is decided before anything is formatted", where(main, r))
+    ctx.require("R-USAGE", "error returns of main", n_ret, 4)
+    # the try around reformat_files catches ValueError (usage) and Exception (I/O), both mapped above
+    handlers = []
+    for cn in call_nodes:
+        t = _enclosing_try(cn.ast)
+        if t is not None:
+            handlers = [ast.unparse(h.type) if h.type is not None else "<bare>" for h in t.handlers]
+    ctx.ob("R-USAGE", f"{main.qual} :: handlers around the run", "ValueError" in handlers,
+           f"usage errors raised as ValueError must be caught and mapped to an exit status; handlers: {handlers}", where(main, main.node))
+    # (b) reformat_files: a usage error that the per-file callee raises must be pre-checked before the loop,
+    #     otherwise earlier files are already rewritten when it fires
+    flow = prog.flow(rfs)
+    rflow = prog.flow(rf)
+    callee_raises = []
+    for n in rflow.cfg.nodes:
+        if n.kind == "stmt" and isinstance(n.ast, ast.Raise) and n.ast.exc is not None and "ValueError" in ast.unparse(n.ast.exc):
+            sl = prog.slice_control(rf, n)
+            callee_raises.append((n, sl.params()))
+    ctx.note("usage_raises_in_reformat_file", [f"{norm(n.ast)[:60]} <- {sorted(p)}" for n, p in callee_raises])
+    loops = []
+    for h in flow.cfg.nodes:
+        if h.kind == "for" or (h.kind == "test" and isinstance(h.owner, ast.While)):
+            body = flow.loop_body_nodes(h)
+            sites = [(m, c) for m in body for c in flow.calls_in(m) if prog.resolve_call(rfs, c) == [rf]]
+            if sites:
+                loops.append((h, body, sites))
+    ctx.require("R-USAGE", "per-file loop in reformat_files", len(loops), 1)
+    own_raises = [n for n in flow.cfg.nodes if n.kind == "stmt" and isinstance(n.ast, ast.Raise)]
+    for h, body, sites in loops:
+        for m, c in sites:
+            b = bind_call(rf, c)
+            for rn, params in callee_raises:
+                # map the callee parameters the error depends on to caller-level parameters
+                need: set[str] = set()
+                for p in params:
+                    if p in b:
+                        sl = prog.slice(rfs, b[p], m)
+                        need |= sl.params()
+                    # an unbound parameter uses its default: no caller-level dependence
+                covered = False
+                for r in own_raises:
+                    if r in body:
+                        continue
+                    # sources of the condition that *directly* controls the raise
+                    gs: set[str] = set()
+                    for bnode, _lab in flow.control_deps(r):
+                        for ex in flow.node_exprs(bnode):
+                            gs |= prog.slice(rfs, ex, bnode).params()
+                    # the pre-check must lie on the way to the loop (it can reach the loop head's predecessors)
+                    before_loop = r not in body and _precedes(flow, r, h)
+                    if before_loop and need <= gs:
+                        covered = True
+                ctx.ob("R-USAGE", f"{rfs.qual} :: pre-check of `{norm(rn.ast)[:70]}`", covered,
+                       f"the per-file callee raises this usage error (it depends on {sorted(need)}) inside the loop, after "
+                       f"earlier files may already have been rewritten; reformat_files must decide it before the loop", where(rfs, h))
+    # (c) usage errors raised by reformat_files itself precede every call of reformat_file that can follow them
+    for r in own_raises:
+        p = None
+        for h, body, sites in loops:
+            for m, c in sites:
+                p = p or flow.cfg.path_avoiding(m, r, set())
+        ctx.ob("R-USAGE", f"{rfs.qual} :: {norm(r.ast)[:70]}", p is None,
+               "a usage error must not be raised after a file has been processed", where(rfs, r))
+
+
+def _precedes(flow, a: Node, head: Node) -> bool:
+    """Raise node `a` sits on a branch that is decided before the loop head is reached: the branch node that
+    controls it can reach the head."""
+    for b, _lab in flow.control_deps(a):
+        if flow.cfg.path_avoiding(b, head, set()) is not None and head not in flow.cfg.reachable_from(a):
+            return True
+    return False
+
+
+def _in_except(node: ast.AST) -> str | None:
+    from ..loader import parent
+
+    p = parent(node)
+    while p is not None:
+        if isinstance(p, ast.ExceptHandler):
+            return ast.unparse(p.type) if p.type is not None else "<bare>"
+        if isinstance(p, (ast.FunctionDef, ast.AsyncFunctionDef)):
+            return None
+        p = parent(p)
+    return None
+
+
+def _enclosing_try(node: ast.AST) -> ast.Try | None:
+    from ..loader import parent
+
+    p = parent(node)
+    prev = node
+    while p is not None:
+        if isinstance(p, ast.Try) and prev in p.body:
+            return p
+        prev = p
+        p = parent(p)
+    return None
+
+
+def _is_not_files(prog, fi: FuncInfo, b: Node) -> bool:
+    t = b.ast
+    if isinstance(t, ast.UnaryOp) and isinstance(t.op, ast.Not):
+        org = origins(prog, fi, t.operand, b)
+        return any(o[0] == "attr" and o[2] == "files" for o in org)
+    return False
